@@ -405,7 +405,12 @@ def iso_jobs(ctx, spec, cfg, lengths, timeout=400, mem_mb=10000, witness_len=Non
             src = os.path.join(wd, 'iso_n%d%s.c' % (n, '_w' if w else ''))
             with open(src, 'w') as fh:
                 fh.write(H.iso_harness(g, cfg, spec, n, witness=w))
-            j = cbmc.Job('iso_%s_%s_n%d%s' % (spec.name, cfg.name, n, '_w' if w else ''), wd, [src], scanner_bounds(g, n, 1),
+            b = scanner_bounds(g, n, 1)
+            if n > 0:
+                # one yylex() call on a yy_scan_buffer source with at most one NUL: same arm bounds as the E1 step
+                b.update({'outer': 1, 'goto_match_cont': 1, 'goto_match_nul': 2, 'goto_find_action_nul': 2,
+                          'goto_find_action_last': 2, 'goto_do_action': 1})
+            j = cbmc.Job('iso_%s_%s_n%d%s' % (spec.name, cfg.name, n, '_w' if w else ''), wd, [src], b,
                          includes=[wd, H.HDIR], harness_bound=None, timeout=timeout, mem_mb=mem_mb, gen_file=g.cpath,
                          expect='witness' if w else 'proved',
                          meta=dict(engine='E4', entry=spec.name, config=cfg.name, bound='two instances, %d bytes each, one step each' % n,
